@@ -7,16 +7,17 @@ SPEC_FILES = ('IA32Tables.tla', 'IA32Decode.tla', 'IA32Space.tla')
 _ST = re.compile(r'^/\\ stage = "(\w+)"\n/\\ dev = (\d+)\n/\\ bytes = <<([0-9, ]*)>>', re.M)
 
 
-def _cfg(maxdev, base67, op1):
-    return ('CONSTANTS\n MaxDev = %d\n Base67 = %s\n Op1Set = {%s}\nINIT Init\nNEXT Next\nCHECK_DEADLOCK FALSE\n'
-            % (maxdev, 'TRUE' if base67 else 'FALSE', ','.join(str(x) for x in sorted(op1))))
+def _cfg(maxdev, base67, op1, op2):
+    return ('CONSTANTS\n MaxDev = %d\n Base67 = %s\n Op1Set = {%s}\n Op2Set = {%s}\nINIT Init\nNEXT Next\nCHECK_DEADLOCK FALSE\n'
+            % (maxdev, 'TRUE' if base67 else 'FALSE', ','.join(str(x) for x in sorted(op1)), ','.join(str(x) for x in sorted(op2))))
 
 
-def gen(maxdev, base67=False, op1=None, chk=None, timeout=3000, workers=None):
+def gen(maxdev, base67=False, op1=None, chk=None, timeout=3000, workers=None, op2=None):
     """-> dict(done=[hex...], dead=[hex...], stages={stage: count}, states, transitions).  Cached: the dump does not
     depend on /repo."""
     op1 = sorted(op1 if op1 is not None else range(256))
-    cfg = _cfg(maxdev, base67, op1)
+    op2 = sorted(op2 if op2 is not None else range(256))
+    cfg = _cfg(maxdev, base67, op1, op2)
     h = hashlib.sha1()
     for f in SPEC_FILES:
         h.update(open(os.path.join(core.SPEC, f), 'rb').read())
@@ -46,7 +47,7 @@ def gen(maxdev, base67=False, op1=None, chk=None, timeout=3000, workers=None):
         if sum(stages.values()) != r.distinct:
             raise core.MachineryError('IA32Space dump parse: %d states parsed, TLC reports %d' % (sum(stages.values()), r.distinct))
         d = {'done': done, 'dead': dead, 'stages': stages, 'states': r.distinct, 'transitions': r.generated,
-             'cfg': {'MaxDev': maxdev, 'Base67': base67, 'Op1': [op1[0], op1[-1], len(op1)]}}
+             'cfg': {'MaxDev': maxdev, 'Base67': base67, 'Op1': [op1[0], op1[-1], len(op1)], 'Op2': [op2[0], op2[-1], len(op2)]}}
         tmp = cf + '.%d' % os.getpid()
         json.dump(d, open(tmp, 'w'))
         os.rename(tmp, cf)
